@@ -307,7 +307,7 @@ EXTRA_RULE = {
  "C09": "requests of 5001/5003/5007 names (own splitting path) in the quick tier; the archive at the same path replaced and extracted again in the same process through every parallel entry point.",
  "C10": "every protected archive also verified behind a 512- and a 1536-byte prefix; an empty and a one-byte file in every protected archive; an archive with full attributes after an in-place add (MutableArchive): untouched and added files verify, altered bytes of untouched files are detected. files mixing stored-as-is and compressed sectors under sector checksums; 700/3000 signed contents (short RSA values occur).",
  "C11": "traversal names that share a leaf name with an ordinary entry (flattened extraction meets the same base name again); directories followed by more '..' than directories.",
- "C13": "textures with and without file names, events with per-animation ranges, cameras with any subset of position/target/roll tracks; the relocation correspondence also for the event, attachment and camera sections. header flags incl. the texture-combiner bit for Cataclysm/MoP models.",
+ "C13": "textures with and without file names, events with per-animation ranges, cameras with any subset of position/target/roll tracks; the relocation correspondence also for the event, attachment and camera sections. header flags incl. the texture-combiner bit for Cataclysm/MoP models; 80/600 modern .anim files (0..3 sections, 0..5 bones each, every subset of translation / rotation / scaling tracks with 0..4 keys, arbitrary float bits): write->parse->write, conversion to the same and to the other container, and the model's reading and re-laying-out of the writer's bytes.",
  "C14": "every combination of flight bounds / water / texture flags per version (version detection and chunk selection depend on which markers occur together). terrain chunks carrying MCRD and MCRW alone and together; water instances reaching the far edge (x+w = 8 / y+h = 8).",
  "C15": "one root in four with stale header counts (lists edited after the header was filled in); the group writer's bytes through the crate's own group reader (known finding D53). portals with 0..6 corners; group flag conversion over every version pair against Model groupFlagsTo.",
  "C16": "every image class (noise, few colours, fully transparent, gradient, flat opaque) at every size on the exact BGRA target.",
